@@ -125,6 +125,8 @@ pub struct PointInfo<'a> {
     pub after_op: bool,
     /// whether that op returned Ok
     pub op_ok: bool,
+    /// how many single-record writes of that op took effect (a refused batch may have an accepted prefix)
+    pub applied_records: usize,
 }
 
 pub trait Observer {
@@ -189,6 +191,7 @@ pub struct Runner<'a> {
     pub closed_seen: std::collections::BTreeSet<u64>,
     pub inst: u32,
     pub last_op_ok: bool,
+    pub last_applied: usize,
 }
 
 /// Custom ending of a scheduled run (replaces "drain the worker, close the store").
@@ -247,7 +250,7 @@ impl<'a> Runner<'a> {
         if self.st.rl.is_none() {
             return Ok(());
         }
-        let info = PointInfo { step: self.step_ix, worker, point, after_op, op_ok: self.last_op_ok };
+        let info = PointInfo { step: self.step_ix, worker, point, after_op, op_ok: self.last_op_ok, applied_records: self.last_applied };
         obs.at_point(&self.st, &self.m, &info).map_err(RunErr::Viol)
     }
 
@@ -348,7 +351,7 @@ fn run_inner(case: &SchedCase, obs: &mut dyn Observer, dir: &str, tail: Option<T
         Ok(s) => s,
         Err(o) => return Err(RunErr::Viol(sviol("C05", "open_empty_dir", format!("open of an empty directory: {}", o.brief()), case, 0))),
     };
-    let mut r = Runner { case, st, m: Model::new(), models: vec![Model::new()], recs: vec![], steps: vec![], flushes: vec![], worker_tid: None, worker_dead: false, stall_points: 0, step_ix: 0, closed_seen: Default::default(), inst: 1, last_op_ok: true };
+    let mut r = Runner { case, st, m: Model::new(), models: vec![Model::new()], recs: vec![], steps: vec![], flushes: vec![], worker_tid: None, worker_dead: false, stall_points: 0, step_ix: 0, closed_seen: Default::default(), inst: 1, last_op_ok: true, last_applied: 0 };
     let mut stop_reason = String::new();
     let mut completed = 0usize;
     for (i, step) in h.steps.iter().enumerate() {
@@ -515,6 +518,7 @@ fn run_inner(case: &SchedCase, obs: &mut dyn Observer, dir: &str, tail: Option<T
         }
         trace::note(Ek::OpEnd { op: i as u32, ok: outcome.is_ok() });
         r.last_op_ok = outcome.is_ok();
+        r.last_applied = r.recs.len() - wb;
         let n = case.sched.get(i).copied().unwrap_or(0);
         r.release(n, obs, true)?;
         if case.reader_steps.contains(&i) && !r.worker_dead {
